@@ -109,7 +109,7 @@ func main() {
 		sort.Strings(names)
 		for _, n := range names {
 			f := pk.files[n]
-			in := &instr{pk: pk, fset: fset, fine: *mode == "fine", visible: *mode == "visible", sites: sites}
+			in := &instr{pk: pk, fset: fset, fine: *mode == "fine", visible: *mode == "visible" || *mode == "ticks", ticksOnly: *mode == "ticks", sites: sites}
 			in.file(f)
 			var buf bytes.Buffer
 			if err := printer.Fprint(&buf, fset, f); err != nil {
@@ -210,14 +210,15 @@ func collectGlobals(pk *pkgInfo) {
 }
 
 type instr struct {
-	pk      *pkgInfo
-	fset    *token.FileSet
-	fine    bool
-	visible bool
-	sites   *siteTab
-	recv    string // receiver name of the current method if its type is a singleton type
-	recvT   string
-	local   map[string]bool // names shadowing globals in the current function (params / := / var)
+	pk        *pkgInfo
+	fset      *token.FileSet
+	fine      bool
+	visible   bool
+	ticksOnly bool // only loop-iteration counters: no scheduling points, no access events, "sync" left alone
+	sites     *siteTab
+	recv      string // receiver name of the current method if its type is a singleton type
+	recvT     string
+	local     map[string]bool // names shadowing globals in the current function (params / := / var)
 }
 
 func (in *instr) file(f *ast.File) {
@@ -225,6 +226,9 @@ func (in *instr) file(f *ast.File) {
 	needVrt := false
 	for _, is := range f.Imports {
 		p, _ := strconv.Unquote(is.Path.Value)
+		if in.ticksOnly {
+			break
+		}
 		switch p {
 		case "sync":
 			is.Path.Value = strconv.Quote(modPath + "/zzverif/vsync")
@@ -543,6 +547,9 @@ func (in *instr) stmts(list []ast.Stmt) []ast.Stmt {
 	for _, s := range list {
 		site := in.sites.add(in.fset, s.Pos())
 		accs := in.accesses(s)
+		if in.ticksOnly {
+			accs = nil
+		}
 		if in.fine || (in.visible && len(accs) > 0) {
 			out = append(out, in.call("P", site))
 		}
